@@ -15,6 +15,27 @@ def gen_invalid_read(rng, p):
     name = prefix + s.name
     total = lx._count(s.dims)
     ndim = len([d for d in s.dims if d])
+    if r < 0.42:
+        # requests that are malformed rather than merely absent: they too "cannot succeed"
+        zero = "[" + ",".join("0" for _ in range(ndim)) + "]" if ndim else ""
+        width = {"SINT": 8, "USINT": 8, "INT": 16, "UINT": 16, "DINT": 32, "UDINT": 32, "LINT": 64, "ULINT": 64}
+        k = rng.choice(["index-text", "index-negative", "count-huge", "count-negative", "bit", "bit", "bit"])
+        if k == "index-text":
+            return name + rng.choice(["[a]", "[1,x]", "[0]x", "[", "[]", "[1.5]"]), "malformed index"
+        if k == "index-negative":
+            return name + "[-1]", "index out of range"
+        if k == "count-huge":
+            return "%s%s{%d}" % (name, zero, rng.choice([65536, 70000, 10 ** 9])), "count out of range"
+        if k == "count-negative":
+            return "%s%s{%d}" % (name, zero, rng.choice([-1, -2, -70000])), "count out of range"
+        if s.kind == "atomic" and s.typ in width:
+            return "%s%s.%d" % (name, zero, width[s.typ] + rng.choice([0, 1, 8, 36, 100])), "bit number beyond the integer's width"
+        if s.kind == "atomic" and s.typ == "DWORD":
+            return "%s.%d" % (name, rng.choice([0, 5, 31, 40])), "bit suffix on a BOOL array"
+        if s.kind == "atomic" and s.typ in ("REAL", "LREAL"):
+            return "%s%s.%d" % (name, zero, rng.choice([0, 3])), "bit of a non-integer"
+        if s.kind == "struct":
+            return "%s%s.%d" % (name, zero, rng.choice([0, 3, 40])), "bit of a structure"
     if s.kind == "struct" and not s.typ.is_string and r < 0.45:
         idx = "[0]" * 0 if not ndim else "[" + ",".join("0" for _ in range(ndim)) + "]"
         return name + idx + ".NoSuchMember", "unknown member"
@@ -61,6 +82,9 @@ def gen_invalid_write(rng, p):
 
 
 def run(ctx, model):
+    from props import logixdrv
+    logixdrv.run_reads(ctx, model, "C03")
+    logixdrv.run_writes(ctx, model, "C03")
     from props import kernels
     kernels.run_plan(ctx, model, "C03")
     kernels.run_multi(ctx, model, "C03")
